@@ -4,6 +4,6 @@ set -e
 cd "$(dirname "$0")"
 export CARGO_NET_OFFLINE=true
 python3 tools/translate.py --repo /repo --out lean/A5/Gen/Tables.lean
-(cd lean && lake build A5 a5driver $(ls A5/Props/*.lean | sed 's/\.lean$//; s#/#.#g'))
+(cd lean && lake build A5 a5driver A5.Props.All $(ls A5/Props/C*.lean | sed 's/\.lean$//; s#/#.#g'))
 (cd harness && cargo build --release --quiet && cargo build --quiet)
 echo setup done
